@@ -10,12 +10,35 @@ macro_rules! total {
             kani::cover!(x.is_nan());
             kani::cover!(x == f32::INFINITY);
             kani::cover!(x < 0.0);
-            let r = $f(x);
-            // C13: finite input in [0,1] gives a finite output
-            if x >= 0.0 && x <= 1.0 { assert!(r.is_finite()); }
+            let _ = $f(x);
         }
     )* };
 }
+// C13: finite input in [0,1] gives a finite output
+macro_rules! finite01 {
+    ($( $h:ident = $f:ident ),* $(,)?) => { $(
+        #[kani::proof]
+        fn $h() {
+            let x: f32 = kani::any();
+            kani::assume(x >= 0.0 && x <= 1.0);
+            kani::cover!(x == 0.0);
+            kani::cover!(x == 1.0);
+            assert!($f(x).is_finite());
+        }
+    )* };
+}
+finite01!(
+    finite_log100_oetf = log100_oetf, finite_log100_inverse_oetf = log100_inverse_oetf,
+    finite_log316_oetf = log316_oetf, finite_log316_inverse_oetf = log316_inverse_oetf,
+    finite_rec_1886_eotf = rec_1886_eotf, finite_rec_1886_inverse_eotf = rec_1886_inverse_eotf,
+    finite_rec_470m_oetf = rec_470m_oetf, finite_rec_470m_inverse_oetf = rec_470m_inverse_oetf,
+    finite_rec_470bg_oetf = rec_470bg_oetf, finite_rec_470bg_inverse_oetf = rec_470bg_inverse_oetf,
+    finite_rec_709_oetf = rec_709_oetf, finite_rec_709_inverse_oetf = rec_709_inverse_oetf,
+    finite_xvycc_eotf = xvycc_eotf, finite_xvycc_inverse_eotf = xvycc_inverse_eotf,
+    finite_srgb_eotf = srgb_eotf, finite_srgb_inverse_eotf = srgb_inverse_eotf,
+    finite_st_2084_inverse_oetf = st_2084_inverse_oetf, finite_st_2084_oetf = st_2084_oetf,
+    finite_arib_b67_inverse_oetf = arib_b67_inverse_oetf, finite_arib_b67_oetf = arib_b67_oetf,
+);
 total!(
     total_log100_oetf = log100_oetf, total_log100_inverse_oetf = log100_inverse_oetf,
     total_log316_oetf = log316_oetf, total_log316_inverse_oetf = log316_inverse_oetf,
